@@ -4,18 +4,27 @@ use crate::engine::Spec;
 pub mod exec_common;
 
 pub mod c01;
+pub mod c02;
+pub mod c03;
 pub mod c05;
 pub mod c07;
 pub mod c08;
+pub mod c09;
 pub mod c10;
 pub mod c11;
 pub mod c12;
 pub mod c13;
+pub mod c14;
+pub mod c16;
+pub mod c17;
 pub mod c18;
 pub mod c19;
 
 pub fn all() -> Vec<&'static Spec> {
-    vec![&c01::SPEC, &c05::SPEC, &c07::SPEC, &c08::SPEC, &c10::SPEC, &c11::SPEC, &c12::SPEC, &c13::SPEC, &c18::SPEC, &c19::SPEC]
+    vec![
+        &c01::SPEC, &c02::SPEC, &c03::SPEC, &c05::SPEC, &c07::SPEC, &c08::SPEC, &c09::SPEC, &c10::SPEC, &c11::SPEC, &c12::SPEC, &c13::SPEC,
+        &c14::SPEC, &c16::SPEC, &c17::SPEC, &c18::SPEC, &c19::SPEC,
+    ]
 }
 
 pub fn find(id: &str) -> Option<&'static Spec> {
